@@ -15,6 +15,7 @@ import (
 	"sort"
 	"strings"
 	"sync"
+	"time"
 
 	webdav "github.com/emersion/go-webdav"
 	"github.com/emersion/go-webdav/internal"
@@ -39,7 +40,7 @@ func newSandbox() *sandbox {
 	if st, err := os.Stat("/dev/shm"); err == nil && st.IsDir() {
 		tmp = "/dev/shm"
 	}
-	base, err := os.MkdirTemp(tmp, "verif-fs-")
+	base, err := os.MkdirTemp(tmp, fmt.Sprintf("verif-fs-%d-", os.Getpid()))
 	if err != nil {
 		panic(err)
 	}
@@ -293,7 +294,9 @@ func (sb *sandbox) do(rq fsReq) (line string, goOut string) {
 	req = req.WithContext(bgCtx)
 	rec := httptest.NewRecorder()
 	panicked := false
-	func() {
+	done := make(chan struct{})
+	go func() {
+		defer close(done)
 		defer func() {
 			if r := recover(); r != nil {
 				panicked = true
@@ -301,12 +304,29 @@ func (sb *sandbox) do(rq fsReq) (line string, goOut string) {
 		}()
 		sb.h.ServeHTTP(rec, req)
 	}()
+	select {
+	case <-done:
+	case <-time.After(8 * time.Second):
+		// the handler does not return (e.g. a COPY into its own subtree that keeps walking what it creates):
+		// report it and stop the whole process, the goroutine cannot be cancelled
+		reqSx := sx("req", hx(rq.method), hx(rq.path), hx(rq.depth), hx(rq.ow), destView, string(rq.ifm), string(rq.ifnm),
+			b01(rq.ctype != ""), b01(ctypeXml), hx(body), faultTok, string(pf))
+		fmt.Printf("fs.req %s %s => hang\n", sxTree(pre), reqSx)
+		os.Stdout.Sync()
+		fmt.Fprintln(os.Stderr, "handler did not return within 8s; aborting the run")
+		os.Exit(3)
+	}
 	reqSx := sx("req", hx(rq.method), hx(rq.path), hx(rq.depth), hx(rq.ow), destView, string(rq.ifm), string(rq.ifnm),
 		b01(rq.ctype != ""), b01(ctypeXml), hx(body), faultTok, string(pf))
 	line = sxTree(pre) + " " + reqSx
 	post := sb.listing()
 	if panicked {
 		return line, "panic"
+	}
+	if len(post) > 400 {
+		// a request of this universe can at most double a tree of a dozen entries: the handler ran away
+		// (e.g. a COPY into its own subtree that walks what it creates until the path is too long)
+		return line, fmt.Sprintf("runaway-tree %d", len(post))
 	}
 	res := rec.Result()
 	respBody, _ := io.ReadAll(res.Body)
